@@ -22,6 +22,8 @@ func init() {
 }
 
 func checkC20(c *Ctx) {
+	c20ConstraintFieldsNeverWin(c)
+	c20AllDefaultsDecidedAfterScan(c)
 	c20Links(c)
 	c20AllChildren(c)
 	// errcheck-style baseline: a newly discarded error in the package is a dropped protocol/validation step
@@ -457,4 +459,120 @@ func c20AllChildren(c *Ctx) {
 	}
 	c.check("walker.visits-every-child-element", "tools/trim#range-loops", 0, nRange >= 8,
 		fmt.Sprintf("the walkers range over adt child slices in %d places (expected at least 8: the scan must see them)", nRange))
+}
+
+// c20ConstraintFieldsNeverWin: an optional (`x?: v`) or required (`x!: v`)
+// field constrains a field without providing it, so its conjunct must never
+// be the "winner" that makes a regular field redundant: equallySpecific
+// cannot tell where a conjunct came from and relies on findStaticDependencies
+// having excluded both kinds (ignoreConjunct) beforehand.
+func c20ConstraintFieldsNeverWin(c *Ctx) {
+	const rule = "walker.constraint-fields-never-winners"
+	f := c.fn("tools/trim", "(*trimmerV3).findStaticDependencies")
+	bodies := append([]*Fn{f}, c.lits(f)...)
+	found := false
+	for _, b := range bodies {
+		info := b.Info()
+		var stack []ast.Node
+		ast.Inspect(b.Body, func(x ast.Node) bool {
+			if x == nil {
+				stack = stack[:len(stack)-1]
+				return true
+			}
+			stack = append(stack, x)
+			as, ok := x.(*ast.AssignStmt)
+			if !ok || len(as.Lhs) != 1 || !strings.HasSuffix(exprString(as.Lhs[0]), ".ignoreConjunct") || exprString(as.Rhs[0]) != "true" {
+				return true
+			}
+			// the constraint tokens under which the assignment is reached
+			toks := map[string]bool{}
+			for i := len(stack) - 1; i >= 0; i-- {
+				switch g := stack[i].(type) {
+				case *ast.CaseClause:
+					// a case of a switch over field.Constraint
+					for j := i - 1; j >= 0; j-- {
+						if sw, ok := stack[j].(*ast.SwitchStmt); ok {
+							if sw.Tag != nil && strings.HasSuffix(exprString(sw.Tag), ".Constraint") {
+								for _, e := range g.List {
+									toks[exprString(e)] = true
+								}
+							}
+							break
+						}
+					}
+				case *ast.IfStmt:
+					ast.Inspect(g.Cond, func(y ast.Node) bool {
+						if be, ok := y.(*ast.BinaryExpr); ok && be.Op == token.EQL {
+							if strings.HasSuffix(exprString(be.X), ".Constraint") {
+								toks[exprString(be.Y)] = true
+							}
+							if strings.HasSuffix(exprString(be.Y), ".Constraint") {
+								toks[exprString(be.X)] = true
+							}
+						}
+						return true
+					})
+				}
+			}
+			if len(toks) == 0 {
+				return true
+			}
+			found = true
+			_ = info
+			c.check(rule, b.Name, as.Pos(), toks["token.NOT"] && toks["token.OPTION"],
+				fmt.Sprintf("the conjunct of a constraint field must be excluded from the winners for both markers, `?` (token.OPTION) and `!` (token.NOT); found %v", c20Keys(toks)))
+			return true
+		})
+	}
+	if !found {
+		c.check(rule, f.Name, f.Decl.Pos(), false, "anchor: findStaticDependencies no longer sets ignoreConjunct under a test of field.Constraint")
+	}
+}
+
+// c20AllDefaultsDecidedAfterScan: a disjunction with defaults overrides the
+// other winners only if *every* default branch is as specific as the vertex —
+// a universal condition that can be decided only after all branches were
+// examined. The statement that records the disjunction as an overriding
+// winner must therefore not sit inside the loop over its branches.
+func c20AllDefaultsDecidedAfterScan(c *Ctx) {
+	const rule = "walker.all-defaults-decided-after-scan"
+	f := c.fn("tools/trim", "(*trimmerV3).findRedundancies")
+	var inside, total int
+	var pos token.Pos
+	var stack []ast.Node
+	ast.Inspect(f.Body, func(x ast.Node) bool {
+		if x == nil {
+			stack = stack[:len(stack)-1]
+			return true
+		}
+		stack = append(stack, x)
+		as, ok := x.(*ast.AssignStmt)
+		if !ok || len(as.Lhs) != 1 || exprString(as.Lhs[0]) != "disjDefaultWinners" || !strings.HasPrefix(exprString(as.Rhs[0]), "append(") {
+			return true
+		}
+		total++
+		pos = as.Pos()
+		for _, n := range stack {
+			if rs, ok := n.(*ast.RangeStmt); ok && strings.HasSuffix(exprString(rs.X), ".Values") {
+				inside++
+				break
+			}
+		}
+		return true
+	})
+	if total == 0 {
+		c.broken("anchor: findRedundancies no longer records disjunction-default winners (disjDefaultWinners)")
+	}
+	c.check(rule, f.Name, pos, inside == 0,
+		"a disjunction becomes the overriding winner only if every default branch is as specific as the vertex; that is decided after the loop over its branches, never inside it (an early decision at the first matching default drops data equal to one of several defaults)")
+}
+
+
+func c20Keys(m map[string]bool) []string {
+	var out []string
+	for k := range m {
+		out = append(out, k)
+	}
+	sort.Strings(out)
+	return out
 }
